@@ -1118,6 +1118,44 @@ def affinity_phase(seed, n):
     return viol, {"big_inputs": n, "bytes": sizes, "fingerprints_per_process": len(base), "processes": [x[0] for x in layouts]}
 
 
+def approx_phase(seed, step):
+    """Number::new_approx over a dense grid of values x every parameter set in three fresh processes
+    that make the calls in ascending, descending and shuffled order; the sorted lines must be
+    identical: an answer may not depend on which calls came before (the process-wide fraction table
+    and whatever is put in front of it). Returns (violations, stats)."""
+    procs = []
+    for order in ("asc", "desc", "shuffled"):
+        procs.append((order, subprocess.Popen([BIN, "approx", "--order", order, "--seed", str(seed), "--step", str(step)], env=sim_env(), stdout=subprocess.PIPE, stderr=subprocess.PIPE, text=True)))
+    outs = {}
+    for order, pr in procs:
+        try:
+            o, e = pr.communicate(timeout=1800)
+        except subprocess.TimeoutExpired:
+            pr.kill()
+            die(f"cooksim approx ({order}) did not finish")
+        if pr.returncode != 0:
+            die(f"cooksim approx ({order}) exited with {pr.returncode}: {e[-800:]}")
+        outs[order] = sorted(l for l in o.splitlines() if l.strip())
+    viol = 0
+    base = outs["asc"]
+    for order in ("desc", "shuffled"):
+        if outs[order] != base:
+            a, b = set(base), set(outs[order])
+            diff = sorted(a - b)[:3], sorted(b - a)[:3]
+            os.makedirs(REPLAYS, exist_ok=True)
+            pth = os.path.join(REPLAYS, f"C18-approx-order-{seed}-{order}.json")
+            json.dump({"property": "C18", "class": "history-dependence", "approx_orders": ["asc", order], "approx_step": step,
+                       "provenance": {"verif_seed": seed, "salt": 0, "run_index": 0, "run_seed": 0, "worker": 0, "workers": 1, "sched_index": 0},
+                       "violations": [{"class": "history-dependence", "key": "new_approx", "phase": "approx",
+                                       "detail": f"Number::new_approx gives different answers for the same arguments depending on the order of the calls in the process (ascending vs {order}): only ascending {diff[0]}, only {order} {diff[1]}"}],
+                       "notes": [f"replay: {BIN} approx --order asc --seed {seed} --step {step} | sort  versus  {BIN} approx --order {order} --seed {seed} --step {step} | sort"]},
+                      open(pth, "w"), indent=1)
+            viol += 1
+            log(f"  new_approx: answers depend on the order of the calls (ascending vs {order}): {diff[0][:1]} vs {diff[1][:1]}")
+            log(f"VIOLATION property=C18 replay={pth}")
+    return viol, {"calls_per_process": len(base), "orders": ["asc", "desc", "shuffled"], "grid_step_1e-4": step}
+
+
 def miri_run(shape, seeds, tier_budget):
     """cookmiri under Miri: real std threads, guard off. Returns (count_ok, failures)."""
     d = os.path.join(HERE, "cookmiri")
@@ -1301,6 +1339,9 @@ def check_c18(tier, seed):
     # ---- CPU count / affinity on big inputs
     aff_viol, aff_stats = (0, {"skipped": "simulated scheduling is blocked"}) if sim_limited else affinity_phase(seed, plan["big_inputs"])
     log(f"[C18] cpu affinity ({time.time() - t0:.0f}s): {aff_stats}")
+    # ---- new_approx in three call orders
+    apx_viol, apx_stats = (0, {"skipped": "simulated scheduling is blocked"}) if sim_limited else approx_phase(seed, 1)
+    log(f"[C18] new_approx order sweep ({time.time() - t0:.0f}s): {apx_stats}")
     # ---- shadow batch: the same simulation against a copy of the library whose std::sync
     # primitives are rewritten to shuttle's, so that every atomic / lock operation inside the
     # library is a scheduling point (races between adjacent atomics, lock-per-step protocols)
@@ -1434,7 +1475,7 @@ def check_c18(tier, seed):
                 log("  " + txt.strip().splitlines()[-1][:300] if txt.strip() else "")
                 log(f"VIOLATION property=C18 replay={p}")
         log(f"[C18] Miri ({time.time() - t0:.0f}s): {lo} light + {fo} full + {co} conv seeds clean, {miri_viol} failing")
-    unlisted = report("C18", raws) + real_hangs + st["divergences"] + miri_viol + cold_div + aff_viol
+    unlisted = report("C18", raws) + real_hangs + st["divergences"] + miri_viol + cold_div + aff_viol + apx_viol
     wall = time.time() - t0
     execs = agg["executions"] + cold_execs + shadow_stats["executions"]
     miri_ok = miri.get("light_seeds", 0) + miri.get("full_seeds", 0) + miri.get("conv_seeds", 0) + miri.get("fit_seeds", 0)
@@ -1468,6 +1509,7 @@ def check_c18(tier, seed):
         "nesting_depth": depth_stats,
         "cpu_affinity": aff_stats,
         "unknown_word_storm": storm_stats,
+        "new_approx_order_sweep": apx_stats,
         "hash_seeds": agg["hash_seeds"],
         "seamed_maps_created": agg["maps_created"],
         "miri": miri,
@@ -1518,6 +1560,8 @@ def check_c11(tier, seed):
                      "--worker", str(w), "--workers", str(W)], f"d{w}")
         batch.spawn(["c11", "--mode", "enum-lens", "--seed", str(seed), "--runs", "1000" if tier == "thorough" else "10",
                      "--worker", str(w), "--workers", str(W)], f"l{w}")
+        batch.spawn(["c11", "--mode", "enum-first", "--seed", str(seed), "--runs", "1000" if tier == "thorough" else "10",
+                     "--worker", str(w), "--workers", str(W)], f"f{w}")
         batch.spawn(["c11", "--mode", "collide", "--seed", str(seed), "--runs", str(plan["collide_files"]), "--names", "1000000",
                      "--worker", str(w), "--workers", str(W)], f"c{w}")
         batch.spawn(["c11", "--mode", "exhaustive", "--alphabet", "ascii7", "--len", str(plan["exh_len"]),
@@ -1675,6 +1719,19 @@ def replay(path):
         st = selftest(seed, i + 1, raws, layouts=[1, W], quiet=True, only_run=i)
         if st["divergences"] or raws:
             log(f"REPRODUCED: run {i} differs between a 1-process and a {W}-process layout")
+            log(f"VIOLATION property={prop} replay={path}")
+            return 1
+        log(f"NOT-REPRODUCED property={prop} class={cls}")
+        return 0
+    if "approx_orders" in rf:
+        o1, o2 = rf["approx_orders"]
+        seed_, step_ = str(prov.get("verif_seed", 1)), str(rf.get("approx_step", 1))
+        res = []
+        for o in (o1, o2):
+            pr = subprocess.run([BIN, "approx", "--order", o, "--seed", seed_, "--step", step_], env=sim_env(), stdout=subprocess.PIPE, stderr=subprocess.STDOUT, text=True, timeout=1800)
+            res.append(sorted(pr.stdout.splitlines()))
+        if res[0] != res[1]:
+            log(f"REPRODUCED: new_approx answers differ between call orders {o1} and {o2}")
             log(f"VIOLATION property={prop} replay={path}")
             return 1
         log(f"NOT-REPRODUCED property={prop} class={cls}")
